@@ -170,6 +170,245 @@ def match_arms(body, where):
     return arms
 
 
+# ---------------------------------------------------------------------------------------------
+# The bodies of the dedicated accessors (MinidumpContext::get_stack_pointer / get_instruction_pointer arms) are
+# translated as EXPRESSIONS over the context's integer fields (C18/Tables.v `aexp`), not only as one location:
+#   block  ::= { `let` x `=` e `;` }* e
+#   e      ::= e `||` e | e `&&` e | e (`==`|`!=`) e | e `|` e | e `^` e | e `&` e | e (`<<`|`>>`) INT | e `as` uN | `!` e
+#            | `if` e `{` block `}` `else` `{` block `}` | `(` e `)` | INT | NAMED_CONST | x | place
+#   place  ::= ctx.f | ctx.f[INT] | ctx.f[md::Enum::Variant as usize]
+# with Rust's precedences and a width for every node (integer literals take the width of the other operand).
+# Arithmetic that can trap or wrap (+ - * / %, method calls) is NOT accepted: the translator aborts.
+TOK = re.compile(r"\s*(0x[0-9a-fA-F_]+(?:u\d+|usize)?|\d[\d_]*(?:u\d+|usize)?|[A-Za-z_][A-Za-z0-9_]*(?:::[A-Za-z_][A-Za-z0-9_]*)*"
+                 r"|<<|>>|==|!=|&&|\|\||[-+*/%&|^!()\[\]{}.;=<>,])")
+
+
+def tokenize(s, where):
+    out, i = [], 0
+    s = s.strip()
+    while i < len(s):
+        m = TOK.match(s, i)
+        if not m:
+            die("%s: cannot tokenise %r" % (where, s[i:i + 40]))
+        out.append(m.group(1))
+        i = m.end()
+    return out
+
+
+class ExprParser:
+    """produces nodes (kind, width, ...); width is an int, 'bool' or None (untyped literal)"""
+
+    def __init__(self, tr, toks, ctxname, where, recv):
+        self.tr, self.t, self.i, self.ctx, self.w, self.recv = tr, toks, 0, ctxname, where, recv
+
+    def peek(self):
+        return self.t[self.i] if self.i < len(self.t) else None
+
+    def take(self, want=None):
+        tok = self.peek()
+        if tok is None or (want is not None and tok != want):
+            die("%s: expected %r, found %r in accessor body %r" % (self.w, want, tok, " ".join(self.t)))
+        self.i += 1
+        return tok
+
+    def bad(self, what):
+        die("%s: %s in accessor body %r (not in the subset C18/Tables.v aexp models)" % (self.w, what, " ".join(self.t)))
+
+    def block(self, env):
+        env = dict(env)
+        lets = []
+        while self.peek() == "let":
+            self.take()
+            x = self.take()
+            if not re.fullmatch(r"[a-z_][a-z0-9_]*", x) or x in (self.recv, "self"):
+                self.bad("let pattern %r" % x)
+            self.take("=")
+            e = self.expr(env)
+            self.take(";")
+            if e[1] is None:
+                self.bad("untyped let %r" % x)
+            env[x] = e[1]
+            lets.append((x, e))
+        body = self.expr(env)
+        for x, e in reversed(lets):
+            body = ("let", body[1], x, e, body)
+        return body
+
+    LEVELS = [["||"], ["&&"], ["==", "!="], ["|"], ["^"], ["&"], ["<<", ">>"]]
+
+    def expr(self, env, lvl=0):
+        if lvl == len(self.LEVELS):
+            return self.cast(env)
+        a = self.expr(env, lvl + 1)
+        while self.peek() in self.LEVELS[lvl]:
+            op = self.take()
+            b = self.expr(env, lvl + 1)
+            a = self.binop(op, a, b)
+            if op in ("==", "!=") and self.peek() in ("==", "!="):
+                self.bad("chained comparison")
+        if self.peek() in ("+", "-", "*", "/", "%", "<", ">", ".", ","):
+            self.bad("operator %r" % self.peek())
+        return a
+
+    def lit_to(self, e, width):
+        if e[0] != "lit" or not isinstance(width, int):
+            self.bad("operand without an integer type")
+        if not 0 <= e[2] < (1 << width):
+            self.bad("literal %d does not fit u%d" % (e[2], width))
+        return ("lit", width, e[2])
+
+    def typed(self, e, width):
+        """give an untyped literal (possibly under `!`) the integer type u<width>"""
+        if e[1] is not None:
+            return e
+        if e[0] == "not":
+            return ("not", width, self.typed(e[2], width))
+        if e[0] in ("shl", "shr"):
+            if not (isinstance(width, int) and e[3] < width):
+                self.bad("shift amount out of range")
+            return (e[0], width, self.typed(e[2], width), e[3])
+        return self.lit_to(e, width)
+
+    def unify(self, a, b):
+        if a[1] is None and b[1] is None:
+            self.bad("two untyped literals")
+        if a[1] is None:
+            a = self.typed(a, b[1])
+        if b[1] is None:
+            b = self.typed(b, a[1])
+        if a[1] != b[1]:
+            self.bad("operands of different types (u%s, u%s)" % (a[1], b[1]))
+        return a, b
+
+    def binop(self, op, a, b):
+        if op in ("||", "&&"):
+            if a[1] != "bool" or b[1] != "bool":
+                self.bad("%s on non-bool" % op)
+            return ("bor" if op == "||" else "band", "bool", a, b)
+        if op in ("==", "!="):
+            a, b = self.unify(a, b)
+            if a[1] == "bool":
+                self.bad("comparison of bools")
+            return ("eq" if op == "==" else "ne", "bool", a, b)
+        if op in ("<<", ">>"):
+            if b[0] != "lit" or a[1] == "bool" or b[2] < 0 or (a[1] is not None and b[2] >= a[1]):
+                self.bad("shift by a non-literal or out-of-range amount")
+            return ("shl" if op == "<<" else "shr", a[1], a, b[2])
+        a, b = self.unify(a, b)
+        if a[1] == "bool":
+            self.bad("bitwise operator on bools")
+        return ({"&": "and", "|": "or", "^": "xor"}[op], a[1], a, b)
+
+    def cast(self, env):
+        e = self.unary(env)
+        while self.peek() == "as":
+            self.take()
+            ty = self.take()
+            m = re.fullmatch(r"u(8|16|32|64)", ty)
+            if not m:
+                self.bad("cast to %r" % ty)
+            to = int(m.group(1))
+            if e[1] is None:
+                e = self.typed(e, to)
+            elif e[1] == "bool":
+                self.bad("cast of a bool")
+            else:
+                e = ("cast", to, e, e[1])
+        return e
+
+    def unary(self, env):
+        tok = self.peek()
+        if tok == "!":
+            self.take()
+            e = self.unary(env)
+            if e[1] == "bool":
+                return ("bnot", "bool", e)
+            return ("not", e[1], e)          # width may still be None: `!1` takes it from the other operand
+        if tok == "-":
+            self.bad("unary minus")
+        return self.atom(env)
+
+    def atom(self, env):
+        tok = self.take()
+        if tok == "(":
+            e = self.expr(env)
+            self.take(")")
+            return e
+        if tok == "if":
+            c = self.expr(env)
+            if c[1] != "bool":
+                self.bad("if on a non-bool")
+            self.take("{")
+            a = self.block(env)
+            self.take("}")
+            self.take("else")
+            self.take("{")
+            b = self.block(env)
+            self.take("}")
+            a, b = self.unify(a, b)
+            return ("if", a[1], c, a, b)
+        m = re.fullmatch(r"(0x[0-9a-fA-F_]+|\d[\d_]*)(u\d+|usize)?", tok)
+        if m:
+            v = int(m.group(1).replace("_", ""), 0)
+            if m.group(2) == "usize":
+                self.bad("usize literal")
+            return self.lit_to(("lit", None, v), int(m.group(2)[1:])) if m.group(2) else ("lit", None, v)
+        if tok in ("true", "false"):
+            return ("blit", "bool", tok == "true")
+        if tok == self.recv:
+            self.take(".")
+            field = self.take()
+            idx = None
+            if self.peek() == "[":
+                self.take()
+                it = self.take()
+                if re.fullmatch(r"\d+", it):
+                    idx = int(it)
+                else:
+                    mm = re.fullmatch(r"md::(\w+)::(\w+)", it)
+                    en = self.tr.enums.get(mm.group(1)) if mm else None
+                    if en is None or mm.group(2) not in en:
+                        self.bad("index %r" % it)
+                    self.take("as")
+                    self.take("usize")
+                    idx = en[mm.group(2)]
+                self.take("]")
+            l = self.tr.check_loc(self.ctx, field, idx, self.w)
+            return ("loc", l[2], l)
+        if re.fullmatch(r"[a-z_][a-z0-9_]*", tok) and tok in env:
+            return ("var", env[tok], tok)
+        if re.fullmatch(r"(?:md::)?[A-Z][A-Z0-9_]*", tok):
+            return self.tr.named_const(tok, self.w)
+        self.bad("token %r" % tok)
+
+
+def fix_widths(e, where):
+    """push widths into `!lit` nodes that were unified late; reject anything still untyped"""
+    k = e[0]
+    if k in ("lit",):
+        if e[1] is None:
+            die("%s: untyped literal left in accessor expression" % where)
+        return e
+    if k in ("loc", "var", "blit"):
+        return e
+    if k == "not":
+        sub = e[2]
+        if sub[1] is None:
+            die("%s: `!` of an untyped literal" % where)
+        return ("not", sub[1], fix_widths(sub, where))
+    if k == "bnot":
+        return (k, e[1], fix_widths(e[2], where))
+    if k == "cast":
+        return (k, e[1], fix_widths(e[2], where), e[3])
+    if k in ("shl", "shr"):
+        return (k, e[1], fix_widths(e[2], where), e[3])
+    if k == "let":
+        return (k, e[1], e[2], fix_widths(e[3], where), fix_widths(e[4], where))
+    if k == "if":
+        return (k, e[1], fix_widths(e[2], where), fix_widths(e[3], where), fix_widths(e[4], where))
+    return (k, e[1], fix_widths(e[2], where), fix_widths(e[3], where))
+
+
 class Tr:
     def __init__(self, repo):
         self.ctx_src = strip_comments(open(os.path.join(repo, "minidump/src/context.rs")).read())
@@ -206,6 +445,36 @@ class Tr:
                 else:
                     fields[name] = None      # nested struct / other: not addressable by the tables
             self.structs[m.group(1)] = fields
+
+    # ---------------------------------------------------------------- accessor expressions
+    def named_const(self, tok, where):
+        src = self.fmt_src if tok.startswith("md::") else self.ctx_src
+        nm = tok[4:] if tok.startswith("md::") else tok
+        ms = list(re.finditer(r"\bconst\s+%s\s*:\s*u(8|16|32|64)\s*=\s*([^;]+);" % re.escape(nm), src))
+        if len(ms) != 1:
+            die("%s: named constant %s: %d definitions `const %s: uN = ..;` found" % (where, tok, len(ms), nm))
+        width = int(ms[0].group(1))
+        p = ExprParser(self, tokenize(ms[0].group(2), where + " const " + nm), None, where + " const " + nm, None)
+        e = p.expr({})
+        if p.peek() is not None:
+            p.bad("trailing tokens")
+        e = fix_widths(p.typed(e, width), where)
+        if e[1] != width:
+            die("%s: const %s: initialiser has type u%s" % (where, nm, e[1]))
+        return ("lit", width, const_eval(e, where + " const " + nm))
+
+    def accessor(self, text, ctxname, where, recv="ctx"):
+        """an arm of get_stack_pointer / get_instruction_pointer -> typed expression of width 64"""
+        p = ExprParser(self, tokenize(text, where), ctxname, where, recv)
+        e = p.block({})
+        if p.peek() is not None:
+            p.bad("trailing tokens %r" % p.peek())
+        if e[1] is None:
+            e = p.typed(e, 64)
+        e = fix_widths(e, where)
+        if e[1] != 64:
+            die("%s: accessor arm has type %s, expected u64" % (where, e[1]))
+        return e
 
     # ---------------------------------------------------------------- locations
     def loc(self, expr, ctxname, where, recv="self"):
@@ -478,19 +747,12 @@ class Tr:
                 die(w + fn + ": arms do not cover exactly the variants of MinidumpRawContext")
             return seen, norm(body[:mm.start()]), norm(body[ee + 1:])
 
-        for fn, key in (("get_instruction_pointer", "ip_loc"), ("get_stack_pointer", "sp_loc")):
+        for fn, key in (("get_instruction_pointer", "ip_acc"), ("get_stack_pointer", "sp_acc")):
             seen, pre, post = arms_of(fn, r"self\.raw")
             if pre or post:
                 die(w + fn + ": code around the match")
             for v, rhs in seen.items():
-                cname = variants[v]
-                width = None
-                mm = re.fullmatch(r"(.+?) as u64", rhs)
-                expr = mm.group(1) if mm else rhs
-                loc = self.loc(expr, cname, w + fn + " " + v, recv="ctx")
-                out[v][key] = loc
-                if bool(mm) != (loc[2] == 32):
-                    die(w + fn + " %s: `as u64` cast does not match field width %d" % (v, loc[2]))
+                out[v][key] = self.accessor(rhs, variants[v], w + fn + " " + v)
         seen, pre, post = arms_of("get_register_always", r"self\.raw")
         if pre or post:
             die(w + "get_register_always: code around the match")
@@ -575,12 +837,94 @@ class Tr:
             tables[cname]["cpu_flags"] = cpu_flags
             t = dict(tables[cname])
             t["variant"] = v
-            t["sp_loc"] = disp[v]["sp_loc"]
-            t["ip_loc"] = disp[v]["ip_loc"]
+            t["sp_acc"] = disp[v]["sp_acc"]
+            t["ip_acc"] = disp[v]["ip_acc"]
+            t["fields"] = [(f, wl[0], -1 if wl[1] is None else wl[1]) for f, wl in self.structs[cname].items() if wl is not None]
             t["gpr"] = tables[disp[v]["gpr_of"]]["registers"]
             t["gpr_of"] = disp[v]["gpr_of"]
             out.append(t)
         return out
+
+
+def const_eval(e, where):
+    k, w = e[0], e[1]
+    mask = (1 << w) - 1 if isinstance(w, int) else None
+    if k == "lit":
+        return e[2]
+    if k == "not":
+        return mask ^ const_eval(e[2], where)
+    if k == "cast":
+        return const_eval(e[2], where) & mask
+    if k == "shl":
+        return (const_eval(e[2], where) << e[3]) & mask
+    if k == "shr":
+        return const_eval(e[2], where) >> e[3]
+    if k in ("and", "or", "xor"):
+        a, b = const_eval(e[2], where), const_eval(e[3], where)
+        return a & b if k == "and" else a | b if k == "or" else a ^ b
+    die("%s: initialiser is not a constant expression of the modelled subset (%s)" % (where, k))
+
+
+def show_aexp(e):
+    k = e[0]
+    if k == "loc":
+        return "ctx.%s%s" % (e[2][0], "" if e[2][1] < 0 else "[%d]" % e[2][1])
+    if k == "lit":
+        return "%#x" % e[2]
+    if k == "blit":
+        return "true" if e[2] else "false"
+    if k == "var":
+        return e[2]
+    if k == "cast":
+        return "(%s as u%d)" % (show_aexp(e[2]), e[1])
+    if k in ("not", "bnot"):
+        return "!%s" % show_aexp(e[2])
+    if k in ("shl", "shr"):
+        return "(%s %s %d)" % (show_aexp(e[2]), "<<" if k == "shl" else ">>", e[3])
+    if k == "let":
+        return "let %s = %s; %s" % (e[2], show_aexp(e[3]), show_aexp(e[4]))
+    if k == "if":
+        return "if %s { %s } else { %s }" % (show_aexp(e[2]), show_aexp(e[3]), show_aexp(e[4]))
+    op = {"and": "&", "or": "|", "xor": "^", "eq": "==", "ne": "!=", "band": "&&", "bor": "||"}[k]
+    return "(%s %s %s)" % (show_aexp(e[2]), op, show_aexp(e[3]))
+
+
+def coq_aexp(e):
+    k = e[0]
+    if k == "loc":
+        return "(ALoc %s)" % coq_loc(e[2])
+    if k == "lit":
+        return "(ALit %d)" % e[2]
+    if k == "var":
+        return "(AVar %s)" % coq_str(e[2])
+    if k == "cast":
+        return "(ACast %s %d %d)" % (coq_aexp(e[2]), e[3], e[1])
+    if k == "not":
+        return "(ANot %s %d)" % (coq_aexp(e[2]), e[1])
+    if k == "shl":
+        return "(AShl %s %d %d)" % (coq_aexp(e[2]), e[3], e[1])
+    if k == "shr":
+        return "(AShr %s %d)" % (coq_aexp(e[2]), e[3])
+    if k in ("and", "or", "xor"):
+        return "(%s %s %s)" % ({"and": "AAnd", "or": "AOr", "xor": "AXor"}[k], coq_aexp(e[2]), coq_aexp(e[3]))
+    if k == "let":
+        return "(ALet %s %s %s)" % (coq_str(e[2]), coq_aexp(e[3]), coq_aexp(e[4]))
+    if k == "if":
+        return "(AIf %s %s %s)" % (coq_bexp(e[2]), coq_aexp(e[3]), coq_aexp(e[4]))
+    raise Abort("internal: integer expression of kind %s" % k)
+
+
+def coq_bexp(e):
+    k = e[0]
+    if k == "blit":
+        return "(BLit %s)" % ("true" if e[2] else "false")
+    if k in ("eq", "ne"):
+        return "(%s %s %s)" % ("BEq" if k == "eq" else "BNe", coq_aexp(e[2]), coq_aexp(e[3]))
+    if k in ("band", "bor"):
+        return "(%s %s %s)" % ("BAnd" if k == "band" else "BOr", coq_bexp(e[2]), coq_bexp(e[3]))
+    if k == "bnot":
+        return "(BNot %s)" % coq_bexp(e[2])
+    raise Abort("internal: boolean expression of kind %s" % k)
 
 
 def coq_str(s):
@@ -626,8 +970,11 @@ def emit(tables):
         o.append("  ct_groups := %s;" % coq_list("(%s, %s)" % (coq_list(coq_str(p) for p in ps), coq_list(coq_str(a) for a in al)) for ps, al in t["groups"]))
         o.append("  ct_sp_name := %s;" % coq_str(t["sp_name"]))
         o.append("  ct_ip_name := %s;" % coq_str(t["ip_name"]))
-        o.append("  ct_sp_loc := %s;" % coq_loc(t["sp_loc"]))
-        o.append("  ct_ip_loc := %s;" % coq_loc(t["ip_loc"]))
+        o.append("  (* get_stack_pointer: %s *)" % show_aexp(t["sp_acc"]))
+        o.append("  ct_sp_acc := %s;" % coq_aexp(t["sp_acc"]))
+        o.append("  (* get_instruction_pointer: %s *)" % show_aexp(t["ip_acc"]))
+        o.append("  ct_ip_acc := %s;" % coq_aexp(t["ip_acc"]))
+        o.append("  ct_fields := %s;" % coq_list("(%s, %d, %s)" % (coq_str(f), w, coq_z(n)) for f, w, n in t["fields"]))
         o.append("  ct_gpr := %s" % coq_list(coq_str(r) for r in t["gpr"]))
         o.append("|}.")
         o.append("")
